@@ -13,7 +13,8 @@ LEVEL = "exploration"
 RULE = (
     "2, 4, 8 and 16 threads start together on a barrier and each loops over its own seeded Tasklang programs "
     "(harness batch items of 3 kinds, DebugBatchItems, contexts, scoped values, sync re-entry, failures), a "
-    "deduplicate scenario in which every thread calls the same function with the same arguments, and - in separate "
+    "deduplicate scenario in which every thread calls the same function with the same arguments, batch-free programs driven "
+    "through asyncio.run(fn.asyncio()) in one thread out of three per round (the others must never see asyncio mode), and - in separate "
     "process-wide configurations - COLLECT_PERF_STATS with profiler.flush() after every round (no reset at thread "
     "start). sys.setswitchinterval(1e-6) plus time.sleep(0) at harness hook points (task steps, flush bodies, context "
     "callbacks, get_priority) force switches where they can really occur. Oracles: per thread and round, the digest "
@@ -43,6 +44,21 @@ PROFILE = gen.profile(
     lazy_modes=["ok", "ok", "raise"],
     ctxs=["actx", "ov", "attr"],
     max_instances=50,
+)
+ASYNCIO_PROFILE = gen.profile(
+    p_shared=0.0,
+    p_result=0.0,
+    p_item_fault=0.0,
+    p_wrap=0.0,
+    max_nodes=7,
+    kinds=1,
+    exc_cls=["exc"],
+    try_kinds=["exc", "none"],
+    w_stmt=dict(sync=0, raise_=0.4, try_=1.5, with_=0, ret=0.0, orphan=0, read=0, probe=0.0),
+    w_leaf=dict(call=8, item=0, const=2.5, none=1.2, err=0, lazy=0, again=0, junk=0, dbg=0),
+    styles=["asynq", "method", "proxy", "pure"],
+    plain_styles=["plain"],
+    max_instances=40,
 )
 PRIO = ("kindonly", [5, 9, -3])
 SWITCH_LOG = []
@@ -101,6 +117,8 @@ def install_probes(rt, tid, viol, jitter):
 
     def own(where):
         SWITCH_LOG.append(tid)
+        if asynq.is_asyncio_mode() != bool(getattr(rt, "asyncio_expected", False)):
+            viol.append(("asyncio-mode-of-another-thread-visible", {"where": where, "thread": tid, "is_asyncio_mode": asynq.is_asyncio_mode()}))
         if threading.get_ident() != me:
             viol.append(("ran-on-foreign-thread", {"where": where, "thread": tid}))
         if rt.sched is not None and S.get_scheduler() is not rt.sched:
@@ -156,6 +174,27 @@ def loop(tid, nthreads, rounds, seed, perf, out, barrier=None):
             digest.append((repr(o[:2]), tl.digest(rt.log)))
             for v in rt.violations[:2]:
                 viol.append((v["oracle"], v["detail"]))
+        # one thread in three also drives a batch-free program through asyncio in this round
+        if (r + tid) % 3 == 0:
+            import asyncio
+
+            aprog = gen.generate(tl.case_seed(seed, "C16a", tid), ASYNCIO_PROFILE)
+            for node in aprog["nodes"]:
+                node["ret"] = "return"
+            rt = harness.HarnessRT(aprog, seed=seed)
+            rt.label = "T%d" % tid
+            rt.track_running = False
+            rt.asyncio_expected = True
+            rt.step_probes.append(lambda rt_, fr, k: (SWITCH_LOG.append(tid), jr.random() < 0.3 and time.sleep(0)))
+            root = lang.Frame(0, (), None)
+            try:
+                v = asyncio.run(harness.asyncio_entry(rt.style_of(0), rt, root))
+                ao = ("val", repr(v)[:80])
+            except BaseException as e:
+                ao = ("exc", exc_desc(e))
+            if asynq.is_asyncio_mode():
+                viol.append(("asyncio-mode-left-on-after-asyncio-run", {"thread": tid}))
+            digest.append(("asyncio", repr(ao), tl.digest(rt.log)))
         # deduplicate: same function, same arguments in every thread
         st = {"dd_exec": [], "rt": None, "dd_tasks": None}
         F["tls"].cur = st
